@@ -74,6 +74,7 @@ HINT = "Please try --help for more information."
 _ENV = {}
 _CACHE = {}
 _COUNTER = [0]
+_LAST_OUT = [""]
 
 
 def init_worker():
@@ -410,6 +411,7 @@ def run_main(tool, argv, stdin_text, patches=None):
         for (obj, name, val) in reversed(undo):
             setattr(obj, name, val)
         sys.argv, sys.stdout, sys.stderr, sys.stdin, P.stdin = saved
+    _LAST_OUT[0] = out.getvalue()
     return status, out.getvalue(), err.getvalue()
 
 
@@ -1688,6 +1690,7 @@ def _run_one_inner(case):
             facts_before["target_existed"] = os.path.exists(ns.output)
         req, obs, facts = EXEC[tool](case, ns)
         facts.update(facts_before)
+        facts["raw_stdout"] = _LAST_OUT[0]
         if case.get("script"):
             facts["script"] = run_script(case, facts)
         facts["judge"] = JUDGE[tool](case, facts)
@@ -1796,6 +1799,13 @@ def judge(case, obs):
         want = 1 if isinstance(st, tuple) else st
         if sc["rc"] != want:
             return "console script exit status %s, in-process %s" % (sc["rc"], want)
+        # ... and the same standard output, byte for byte (DEBUG lines aside; --random values are the
+        # oracle's: the in-process run uses the deterministic stand-in for secrets.choice)
+        av = case["argv"]
+        if not any(x in ("-R", "--random") or str(x).startswith("--random=") for x in av):
+            a, b = strip_debug(sc["stdout"]), strip_debug(facts.get("raw_stdout", ""))
+            if a != b:
+                return "console script printed %r, the in-process run %r" % (a[:160], b[:160])
     return None
 
 
